@@ -45,6 +45,15 @@ func Shapes() []Shape {
 		Shape{"go-tls12", bubble.Hello{Name: "go-tls12", SNI: "localhost", MaxVer: 0x0303}},
 		Shape{"go-tls13", bubble.Hello{Name: "go-tls13", SNI: "example.com"}},
 		Shape{"go-nosni", bubble.Hello{Name: "go-nosni"}},
+		Shape{"chrome102-nopoints", bubble.Hello{Name: "chrome102-nopoints", ID: id(utls.HelloChrome_102), SNI: "localhost", Mutate: func(spec *utls.ClientHelloSpec) {
+			var keep []utls.TLSExtension
+			for _, e := range spec.Extensions {
+				if _, ok := e.(*utls.SupportedPointsExtension); !ok {
+					keep = append(keep, e)
+				}
+			}
+			spec.Extensions = keep
+		}}},
 	)
 	return out
 }
@@ -89,7 +98,7 @@ func deliverHello(cl *bubble.Client, mode string) {
 func SeamB(t *testing.T, rep *ev.Report, prop, header string, ref Ref, shard, of int) {
 	shapes := Shapes()
 	if !ev.Thorough() {
-		shapes = []Shape{shapes[0], shapes[1], shapes[3], shapes[6], shapes[10], shapes[12]}
+		shapes = []Shape{shapes[0], shapes[1], shapes[3], shapes[6], shapes[10], shapes[12], shapes[13]}
 	}
 	job := 0
 	for _, set := range []string{"default", "default+custom"} {
